@@ -12,6 +12,7 @@ import (
 	"github.com/verily-src/fhirpath-go/fhirpath/system"
 	"github.com/verily-src/fhirpath-go/fhirpath/verifharness/core"
 	"github.com/verily-src/fhirpath-go/fhirpath/verifharness/fx"
+	"github.com/verily-src/fhirpath-go/fhirpath/verifharness/gen"
 	"github.com/verily-src/fhirpath-go/fhirpath/verifharness/model"
 )
 
@@ -157,15 +158,26 @@ func fhirCarrier(m model.CVal, variant int) (any, bool) {
 	case "Boolean":
 		return &dtpb.Boolean{Value: m.B}, true
 	case "Date":
-		t := time.Date(m.T.Y, time.Month(m.T.Mo), m.T.D, 0, 0, 0, 0, time.UTC)
+		// variant 1: the same civil date held in a non-UTC zone (a date has no offset; jsonformat keeps its default zone)
+		loc, tz := time.UTC, "UTC"
+		if variant%2 == 1 {
+			tz = []string{"+05:30", "-11:00"}[(m.T.Y+m.T.Mo+m.T.D)%2]
+			loc = gen.TZLoc(tz)
+		}
+		t := time.Date(m.T.Y, time.Month(m.T.Mo), m.T.D, 0, 0, 0, 0, loc)
 		p := []dtpb.Date_Precision{0, dtpb.Date_YEAR, dtpb.Date_MONTH, dtpb.Date_DAY}[m.T.Comps]
-		return &dtpb.Date{ValueUs: t.UnixMicro(), Timezone: "UTC", Precision: p}, true
+		return &dtpb.Date{ValueUs: t.UnixMicro(), Timezone: tz, Precision: p}, true
 	case "DateTime":
 		switch {
 		case m.T.Comps <= 3:
-			t := time.Date(m.T.Y, time.Month(m.T.Mo), m.T.D, 0, 0, 0, 0, time.UTC)
+			loc, tz := time.UTC, "UTC"
+			if variant%2 == 1 {
+				tz = []string{"+05:30", "-11:00"}[(m.T.Y+m.T.Mo+m.T.D)%2]
+				loc = gen.TZLoc(tz)
+			}
+			t := time.Date(m.T.Y, time.Month(m.T.Mo), m.T.D, 0, 0, 0, 0, loc)
 			p := []dtpb.DateTime_Precision{0, dtpb.DateTime_YEAR, dtpb.DateTime_MONTH, dtpb.DateTime_DAY}[m.T.Comps]
-			return &dtpb.DateTime{ValueUs: t.UnixMicro(), Timezone: "UTC", Precision: p}, true
+			return &dtpb.DateTime{ValueUs: t.UnixMicro(), Timezone: tz, Precision: p}, true
 		case m.T.Comps == 6 && m.T.HasTZ:
 			p := dtpb.DateTime_SECOND
 			if m.T.Frac != "" {
@@ -240,7 +252,7 @@ func c05Build(env *core.Env) *c05Pool {
 		}
 		for variant := 0; variant < 2; variant++ {
 			if fv, ok := fhirCarrier(m, variant); ok {
-				if variant == 1 && m.Kind != "Integer" && m.Kind != "String" {
+				if variant == 1 && m.Kind != "Integer" && m.Kind != "String" && m.Kind != "Date" && !(m.Kind == "DateTime" && m.T.Comps <= 3) {
 					break
 				}
 				p.vals = append(p.vals, c05Val{s, "fhir", m})
